@@ -65,6 +65,13 @@ CLAIMED['C07'] = dict(
          'load-save-load fixed-point clause is checked on the implementation for every byte string that loads (oracle) but is not yet a theorem about '
          'arbitrary bytes; unstorable times are judged after end_of_track folding.',
     technique='Coq proof (invariant + induction over events, tracks, files) + byte-exact model/implementation correspondence', design='5/C07')
+CLAIMED['C09'] = dict(
+    text='Theorems over the model of meta.py: every accepted value of the 17 known meta types and of unknown meta types encodes to FF type <length> payload '
+         'with a correct, minimal variable-length length (proved for every n >= 0) and byte payload, and decodes back to itself both through '
+         'MetaMessage.from_bytes and through the track reader (C07), text and data of any length; a Coq witness refutes the one documented range that does '
+         'not survive (smpte_offset hours 32..255, a known finding). The finite documented domains are enumerated completely against the real constructor.',
+    note='Coq kernel; no axioms; text codec as in C07; ill-typed attribute values are tested on the implementation only; UnknownMetaMessage does no checks by design.',
+    technique='Coq proof (bit-level lemmas, finite sweeps, induction on base-128 digits) + exhaustive model/implementation correspondence', design='5/C09')
 NOT_YET = {}
 ALL = ['C%02d' % i for i in range(1, 21)]
 
